@@ -126,8 +126,8 @@ MUTANTS = {
         m("raw-pickle", E, "        options_hash = hash_bytes(pickle_dumps(self._options))\n        export_options_hash = hash_struct(list(sorted(self._export_options)))\n        if not self._export_options:\n            # Backwards", "        import pickle\n\n        options_hash = hash_bytes(pickle.dumps(self._options))\n        export_options_hash = hash_struct(list(sorted(self._export_options)))\n        if not self._export_options:\n            # Backwards", "C16.3"),
     ],
     "C17": [
-        m("overrides-filtered-by-base", T, "        # Be sure to clone the actual type, in case it's a derived one.\n        return self.__class__(\n            self.func,\n            name=self.name,\n            namespace=self.namespace,\n            version=self.version,\n            compat=self.compat,\n            script=self.script,\n            source=self.source,\n            hash_includes=self._hash_includes,\n            task_options_base=self._task_options_base,\n            task_options_override=new_task_options_update,\n            export_options=self._export_options,\n        )", "        for key in list(new_task_options_update):\n            if self._task_options_base.get(key) == new_task_options_update[key]:\n                del new_task_options_update[key]\n        return self.__class__(\n            self.func,\n            name=self.name,\n            namespace=self.namespace,\n            version=self.version,\n            compat=self.compat,\n            script=self.script,\n            source=self.source,\n            hash_includes=self._hash_includes,\n            task_options_base=self._task_options_base,\n            task_options_override=new_task_options_update,\n            export_options=self._export_options,\n        )", "C17.2"),
-        m("clone-drops-version", T, "            version=self.version,\n            compat=self.compat,\n            script=self.script,\n            source=self.source,\n            hash_includes=self._hash_includes,\n            task_options_base=self._task_options_base,\n            task_options_override=new_task_options_update,\n            export_options=self._export_options,\n        )", "            compat=self.compat,\n            script=self.script,\n            source=self.source,\n            hash_includes=self._hash_includes,\n            task_options_base=self._task_options_base,\n            task_options_override=new_task_options_update,\n            export_options=self._export_options,\n        )", "C17.2"),
+        m("overrides-filtered-by-base", T, "        # Be sure to clone the actual type, in case it's a derived one.\n        return self.__class__(\n            self.func,\n            name=self.name,\n            namespace=self.namespace,\n            version=self.version,\n            compat=self.compat,\n            script=self.script,\n            source=self.source,\n            hash_includes=self._hash_includes,\n            task_options_base=self._task_options_base,\n            task_options_override=new_task_options_update,\n            export_options=set(self._export_options),\n        )", "        for key in list(new_task_options_update):\n            if self._task_options_base.get(key) == new_task_options_update[key]:\n                del new_task_options_update[key]\n        return self.__class__(\n            self.func,\n            name=self.name,\n            namespace=self.namespace,\n            version=self.version,\n            compat=self.compat,\n            script=self.script,\n            source=self.source,\n            hash_includes=self._hash_includes,\n            task_options_base=self._task_options_base,\n            task_options_override=new_task_options_update,\n            export_options=set(self._export_options),\n        )", "C17.2"),
+        m("clone-drops-version", T, "            version=self.version,\n            compat=self.compat,\n            script=self.script,\n            source=self.source,\n            hash_includes=self._hash_includes,\n            task_options_base=self._task_options_base,\n            task_options_override=new_task_options_update,\n            export_options=set(self._export_options),\n        )", "            compat=self.compat,\n            script=self.script,\n            source=self.source,\n            hash_includes=self._hash_includes,\n            task_options_base=self._task_options_base,\n            task_options_override=new_task_options_update,\n            export_options=set(self._export_options),\n        )", "C17.2"),
         m("base-options-hashed", T, "        if self._task_options_override:\n            task_options_hash = [get_type_registry().get_hash(self._task_options_override)]", "        if self._task_options_override:\n            task_options_hash = [get_type_registry().get_hash({**self._task_options_base, **self._task_options_override})]", "C17.1"),
         m("includes-unsorted", T, "            hash_includes_hash = sorted(map(get_type_registry().get_hash, self._hash_includes))", "            hash_includes_hash = list(map(get_type_registry().get_hash, self._hash_includes))", "C17.1"),
         m("wrapper-forgets-inner", T, "                hash_includes=wrapper_hash_includes + wrapped_hash_data,", "                hash_includes=wrapper_hash_includes,", "C17.4"),
@@ -384,7 +384,7 @@ _add(
 )
 _add(
     "C27",
-    m("options-clone-drops-exports", T, "            task_options_override=new_task_options_update,\n            export_options=self._export_options,\n        )", "            task_options_override=new_task_options_update,\n        )", "C27.5"),
+    m("options-clone-drops-exports", T, "            task_options_override=new_task_options_update,\n            export_options=set(self._export_options),\n        )", "            task_options_override=new_task_options_update,\n        )", "C27.5"),
 )
 _add(
     "C30",
@@ -394,4 +394,8 @@ _add(
     "C33",
     m("console-join-on-call-hash", "redun/console/screens.py", "                .outerjoin(Value, CallNode.value_hash == Value.value_hash)\n                .filter(Job.parent_id == root_id)", "                .outerjoin(Value, CallNode.call_hash == Value.value_hash)\n                .filter(Job.parent_id == root_id)", "C33.4"),
     m("console-done-includes-cached", "redun/console/screens.py", "                    query = query.filter(\n                        Job.cached.is_(False) & (Value.type != REDUN_ERROR_TYPE_NAME)\n                    )", "                    query = query.filter(Value.type != REDUN_ERROR_TYPE_NAME)", "C33.4"),
+)
+_add(
+    "C27",
+    m("options-clone-shares-export-set", T, "            export_options=set(self._export_options),\n        )", "            export_options=self._export_options,\n        )", "C27.5"),
 )
